@@ -292,3 +292,389 @@ Definition sched_window : list label :=
 Lemma literal_no_write_to_dead_refuted : exists s, run true init sched_window = Some s /\ In (0, 0, true) (atts s) /\ late (gens s 0) = [].
 Proof. eexists. split; [vm_compute; reflexivity|]. cbn. split; auto. Qed.
 
+
+(* ------------------------------------------------------------------------------------------------ *)
+(* further invariants: who can have left the loop, capacity of the failure queue *)
+Definition lostpc (p : spc) : bool :=
+  match p with SRequeue _ | SFailPush _ | SFailClose | SExit => true | _ => false end.
+
+Definition Inv3 (s : st) : Prop :=
+  (forall g, done (gens s g) = true -> dead (gens s g) = true) /\
+  (forall g, rp (gens s g) <> RRun -> dead (gens s g) = true) /\
+  (forall g, lostpc (sp (gens s g)) = true -> dead (gens s g) = true \/ peerc (gens s g) = true) /\
+  length (failQ s) <= 1.
+
+Lemma lt_ngen_of_sp s g : Inv0 s -> sp (gens s g) <> STop -> g < ngen s.
+Proof. intros HN H. destruct (Nat.lt_ge_cases g (ngen s)); auto. rewrite (HN g) in H by lia. now destruct H. Qed.
+
+Lemma not_current_dead s g : Inv1 s -> Inv0 s -> sp (gens s g) <> STop -> isCurrent s g = false -> dead (gens s g) = true.
+Proof.
+  intros (HA & HC) HN P C. pose proof (lt_ngen_of_sp _ _ HN P) as L. unfold isCurrent, is_cur in C.
+  destruct (cur s) as [c|] eqn:EC.
+  - destruct (Nat.eqb_spec c g).
+    + subst. destruct (closedF s); cbn in C; [|discriminate]. now destruct HA as [<- _].
+    + apply HC; auto. congruence.
+  - apply HC; auto. congruence.
+Qed.
+
+Lemma Inv3_step s l s' : Inv1 s -> Inv0 s -> Inv3 s -> step true s l = Some s' -> Inv3 s'.
+Proof.
+  intros (HA & HC) HN (HD & HR & HL & HQ) H. destruct l; cbn [step] in H.
+  all: dstep H.
+  all: unfold Inv3, do_close, w_sp, w_gen, w_gens, is_cur, isCurrent in *; cbn in *.
+  all: repeat split; intros; cbn in *.
+  all: unfold upd in *; cbn in *; rewrite ?al_dead, ?al_sp, ?al_done, ?al_peerc, ?al_rp in *.
+  all: eqs.
+  all: eauto; try lia; try discriminate; try congruence.
+  all: try (apply HR; congruence).
+  all: try (match goal with E : failQ _ = _ |- _ => rewrite E in *; cbn in *; lia end).
+  all: try (match goal with E : sp (gens _ ?g) = _ |- _ => apply (HL g); rewrite E; reflexivity end).
+  all: try (match goal with E : _ || _ = true |- _ => apply orb_prop in E; tauto end).
+  all: try (left; apply not_current_dead; [split; auto|auto|congruence|]; unfold isCurrent, is_cur).
+  all: try (apply negb_true_iff in Heqb; exact Heqb).
+  all: try exact Heqb.
+Qed.
+
+Definition InvX (s : st) : Prop := Inv s /\ Inv3 s.
+Lemma InvX_init : InvX init.
+Proof. split; [apply Inv_init|]. unfold Inv3, init; cbn. repeat split; intros; try discriminate; try lia. now destruct H. Qed.
+Lemma InvX_step s l s' : InvX s -> step true s l = Some s' -> InvX s'.
+Proof. intros [I I3] H. split; [eapply Inv_step; eauto|]. destruct I as (I1 & _ & I0). eapply Inv3_step; eauto. Qed.
+Lemma InvX_run ls : forall s s', InvX s -> run true s ls = Some s' -> InvX s'.
+Proof.
+  induction ls as [|l r IH]; cbn; intros s s' HI H. { now injection H as <-. }
+  destruct (step true s l) eqn:E; [|discriminate]. eapply IH; [eapply InvX_step; eauto|eauto].
+Qed.
+
+(* ------------------------------------------------------------------------------------------------ *)
+(* progress without further calls: schedules of the client's own goroutines *)
+Definition reach_int (s s' : st) : Prop := exists ls, Forall (fun l => internal l = true) ls /\ run true s ls = Some s'.
+
+Lemma reach_refl s : reach_int s s.
+Proof. exists []. split; [constructor|reflexivity]. Qed.
+Lemma reach_trans s1 s2 s3 : reach_int s1 s2 -> reach_int s2 s3 -> reach_int s1 s3.
+Proof.
+  intros (l1 & F1 & R1) (l2 & F2 & R2). exists (l1 ++ l2). split; [apply Forall_app; auto|]. now rewrite run_app, R1.
+Qed.
+Lemma reach_step s l s' : internal l = true -> step true s l = Some s' -> reach_int s s'.
+Proof. intros I H. exists [l]. split; [repeat constructor; auto|]. cbn. now rewrite H. Qed.
+Lemma reach_InvX s s' : InvX s -> reach_int s s' -> InvX s'.
+Proof. intros I (ls & _ & R). eapply InvX_run; eauto. Qed.
+
+Definition healthy (s : st) (c : nat) : Prop :=
+  cur s = Some c /\ closedF s = false /\ dead (gens s c) = false /\ peerc (gens s c) = false.
+
+Definition frame (c : nat) (s s' : st) : Prop :=
+  cur s' = cur s /\ closedF s' = closedF s /\ dead (gens s' c) = dead (gens s c) /\ peerc (gens s' c) = peerc (gens s c) /\
+  (forall g, g <> c -> gens s' g = gens s g) /\ (forall x, In x (got (gens s c)) -> In x (got (gens s' c))).
+
+Lemma frame_refl c s : frame c s s.
+Proof. unfold frame. repeat split; auto. Qed.
+Lemma frame_trans c s1 s2 s3 : frame c s1 s2 -> frame c s2 s3 -> frame c s1 s3.
+Proof.
+  intros (A1 & A2 & A3 & A4 & A5 & A6) (B1 & B2 & B3 & B4 & B5 & B6). unfold frame. repeat split; try congruence.
+  - intros g N. rewrite B5, A5; auto. - auto.
+Qed.
+Lemma frame_healthy c s s' : frame c s s' -> healthy s c -> healthy s' c.
+Proof. intros (A1 & A2 & A3 & A4 & _) (H1 & H2 & H3 & H4). unfold healthy. repeat split; congruence. Qed.
+
+Lemma healthy_current s c : healthy s c -> isCurrent s c = true.
+Proof. intros (H1 & H2 & _). unfold isCurrent, is_cur. rewrite H1, H2, Nat.eqb_refl. reflexivity. Qed.
+
+Ltac simpw := cbn; unfold upd; rewrite ?Nat.eqb_refl; cbn.
+
+(* the live send goroutine writes the request it holds *)
+Lemma live_write s c m : healthy s c ->
+  (sp (gens s c) = SCheck m \/ sp (gens s c) = SHook m \/ sp (gens s c) = SWrite m) ->
+  exists s', reach_int s s' /\ frame c s s' /\ sp (gens s' c) = STop /\ sendQ s' = sendQ s /\ failQ s' = failQ s /\ In m (got (gens s' c)).
+Proof.
+  intros H P. pose proof (healthy_current _ _ H) as C. destruct H as (H1 & H2 & H3 & H4).
+  assert (W : forall s, cur s = Some c -> closedF s = false -> dead (gens s c) = false -> peerc (gens s c) = false -> sp (gens s c) = SWrite m ->
+     exists s', reach_int s s' /\ frame c s s' /\ sp (gens s' c) = STop /\ sendQ s' = sendQ s /\ failQ s' = failQ s /\ In m (got (gens s' c))).
+  { clear. intros s H1 H2 H3 H4 P. eexists. split; [|split].
+    - eapply (reach_step _ (LSWriteOk c)); [reflexivity|]. unfold step. rewrite P, H3. reflexivity.
+    - unfold frame. simpw. rewrite H4. simpw. repeat split; auto.
+      + intros g N. apply Nat.eqb_neq in N. now rewrite N.
+      + intros x. rewrite in_app_iff. auto.
+    - simpw. rewrite H4. simpw. repeat split; auto. rewrite in_app_iff. right. now left. }
+  assert (K : forall s, cur s = Some c -> closedF s = false -> dead (gens s c) = false -> peerc (gens s c) = false -> sp (gens s c) = SHook m ->
+     exists s', reach_int s s' /\ frame c s s' /\ sp (gens s' c) = STop /\ sendQ s' = sendQ s /\ failQ s' = failQ s /\ In m (got (gens s' c))).
+  { clear - W. intros s H1 H2 H3 H4 P.
+    destruct (W (w_log (w_sp s c (SWrite m)) (EWrite c m (dead (gens s c) || negb (is_cur s c))))) as (s' & R & F & Q); try (simpw; auto; fail).
+    exists s'. split; [|split].
+    - eapply reach_trans; [|exact R]. eapply (reach_step _ (LSHook c)); [reflexivity|]. unfold step. rewrite P. reflexivity.
+    - eapply frame_trans; [|exact F]. unfold frame. simpw. repeat split; auto. intros g N. apply Nat.eqb_neq in N. now rewrite N.
+    - exact Q. }
+  destruct P as [P|[P|P]]; [|eauto|eauto].
+  destruct (K (w_sp s c (SHook m))) as (s' & R & F & Q); try (simpw; auto; fail).
+  exists s'. split; [|split].
+  - eapply reach_trans; [|exact R]. eapply (reach_step _ (LSCheck c)); [reflexivity|]. unfold step. rewrite P, C. reflexivity.
+  - eapply frame_trans; [|exact F]. unfold frame. simpw. repeat split; auto. intros g N. apply Nat.eqb_neq in N. now rewrite N.
+  - exact Q.
+Qed.
+
+Lemma frame_w_sp c s p : frame c s (w_sp s c p).
+Proof. unfold frame. simpw. repeat split; auto. intros g N. apply Nat.eqb_neq in N. now rewrite N. Qed.
+Lemma sp_w_sp s g p : sp (gens (w_sp s g p) g) = p.
+Proof. now simpw. Qed.
+
+Definition ready (p : spc) : Prop := p = STop \/ p = SPollFail \/ p = SBlock.
+
+(* the live send goroutine reaches the point where it looks at the queues, writing the request it may hold *)
+Lemma live_ready s c : InvX s -> healthy s c ->
+  exists s', reach_int s s' /\ frame c s s' /\ ready (sp (gens s' c)) /\ sendQ s' = sendQ s /\ failQ s' = failQ s /\
+             (forall m, holds (sp (gens s c)) = Some m -> In m (got (gens s' c))).
+Proof.
+  intros (_ & (_ & _ & HL & _)) H. pose proof (healthy_current _ _ H) as C.
+  destruct (sp (gens s c)) eqn:P.
+  1-3: exists s; split; [apply reach_refl|]; split; [apply frame_refl|]; split; [unfold ready; auto|]; split; [auto|]; split; [auto|]; cbn; intros; discriminate.
+  - (* STick *)
+    exists (w_sp (w_sp s c SIdle) c STop). split; [|split; [|split]].
+    + eapply reach_trans; [eapply (reach_step _ (LSTick c)); [reflexivity|]; unfold step; rewrite P, C; reflexivity|].
+      eapply (reach_step _ (LSIdleNo c)); [reflexivity|]. unfold step. rewrite sp_w_sp. reflexivity.
+    + eapply frame_trans; apply frame_w_sp.
+    + rewrite sp_w_sp. unfold ready. auto.
+    + split; [reflexivity|]. split; [reflexivity|]. cbn. intros; discriminate.
+  - (* SIdle *)
+    exists (w_sp s c STop). split; [|split; [|split]].
+    + eapply (reach_step _ (LSIdleNo c)); [reflexivity|]. unfold step. rewrite P. reflexivity.
+    + apply frame_w_sp.
+    + rewrite sp_w_sp. unfold ready. auto.
+    + split; [reflexivity|]. split; [reflexivity|]. cbn. intros; discriminate.
+  - destruct (live_write s c m H) as (s' & R & F & Q1 & Q2 & Q3 & Q4); auto.
+    exists s'. split; [exact R|]. split; [exact F|]. split; [rewrite Q1; unfold ready; auto|]. split; [exact Q2|]. split; [exact Q3|]. cbn. intros ? [= <-]. exact Q4.
+  - destruct (live_write s c m H) as (s' & R & F & Q1 & Q2 & Q3 & Q4); auto.
+    exists s'. split; [exact R|]. split; [exact F|]. split; [rewrite Q1; unfold ready; auto|]. split; [exact Q2|]. split; [exact Q3|]. cbn. intros ? [= <-]. exact Q4.
+  - destruct (live_write s c m H) as (s' & R & F & Q1 & Q2 & Q3 & Q4); auto.
+    exists s'. split; [exact R|]. split; [exact F|]. split; [rewrite Q1; unfold ready; auto|]. split; [exact Q2|]. split; [exact Q3|]. cbn. intros ? [= <-]. exact Q4.
+  - exfalso. destruct H as (_ & _ & H3 & H4). destruct (HL c); [rewrite P; reflexivity| |]; congruence.
+  - exfalso. destruct H as (_ & _ & H3 & H4). destruct (HL c); [rewrite P; reflexivity| |]; congruence.
+  - exfalso. destruct H as (_ & _ & H3 & H4). destruct (HL c); [rewrite P; reflexivity| |]; congruence.
+  - exfalso. destruct H as (_ & _ & H3 & H4). destruct (HL c); [rewrite P; reflexivity| |]; congruence.
+Qed.
+
+(* ... and takes the next request: the failure queue first, then the send queue *)
+Lemma live_take s c m : InvX s -> healthy s c -> ready (sp (gens s c)) ->
+  (exists r, failQ s = m :: r) \/ (failQ s = [] /\ exists r, sendQ s = m :: r) ->
+  exists s', reach_int s s' /\ frame c s s' /\ sp (gens s' c) = STop /\ In m (got (gens s' c)) /\
+    ((exists r, failQ s = m :: r /\ failQ s' = r /\ sendQ s' = sendQ s) \/
+     (failQ s = [] /\ failQ s' = [] /\ exists r, sendQ s = m :: r /\ sendQ s' = r)).
+Proof.
+  intros (((HA & _) & _ & HN) & (HD & _)) H RD Q.
+  assert (L : c < ngen s). { destruct H as (H1 & _). rewrite H1 in HA. tauto. }
+  assert (D : done (gens s c) = false). { destruct (done (gens s c)) eqn:E; auto. apply HD in E. destruct H as (_ & _ & H3 & _). congruence. }
+  apply Nat.ltb_lt in L.
+  (* from SBlock *)
+  assert (FB : forall s, healthy s c -> sp (gens s c) = SBlock ->
+     (exists r, failQ s = m :: r) \/ (failQ s = [] /\ exists r, sendQ s = m :: r) ->
+     exists s', reach_int s s' /\ frame c s s' /\ sp (gens s' c) = STop /\ In m (got (gens s' c)) /\
+       ((exists r, failQ s = m :: r /\ failQ s' = r /\ sendQ s' = sendQ s) \/
+        (failQ s = [] /\ failQ s' = [] /\ exists r, sendQ s = m :: r /\ sendQ s' = r))).
+  { clear. intros s H P [(r & Q)|(Q0 & r & Q)].
+    - destruct (live_write (w_sp (w_failQ s r) c (SCheck m)) c m) as (s' & R & F & Q1 & Q2 & Q3 & Q4).
+      { eapply frame_healthy; [apply frame_w_sp|]. exact H. } { rewrite sp_w_sp. auto. }
+      exists s'. split; [|split; [|split; [|split]]]; auto.
+      + eapply reach_trans; [|exact R]. eapply (reach_step _ (LSBlkFail c)); [reflexivity|]. unfold step. rewrite P, Q. reflexivity.
+      + eapply frame_trans; [|exact F]. apply (frame_w_sp c (w_failQ s r)).
+      + left. exists r. auto.
+    - destruct (live_write (w_sp (w_sendQ s r) c (SCheck m)) c m) as (s' & R & F & Q1 & Q2 & Q3 & Q4).
+      { eapply frame_healthy; [apply frame_w_sp|]. exact H. } { rewrite sp_w_sp. auto. }
+      exists s'. split; [|split; [|split; [|split]]]; auto.
+      + eapply reach_trans; [|exact R]. eapply (reach_step _ (LSBlkQueue c)); [reflexivity|]. unfold step. rewrite P, Q. reflexivity.
+      + eapply frame_trans; [|exact F]. apply (frame_w_sp c (w_sendQ s r)).
+      + right. rewrite Q3. cbn. repeat split; auto. exists r. auto. }
+  (* from SPollFail *)
+  assert (FP : forall s, healthy s c -> sp (gens s c) = SPollFail ->
+     (exists r, failQ s = m :: r) \/ (failQ s = [] /\ exists r, sendQ s = m :: r) ->
+     exists s', reach_int s s' /\ frame c s s' /\ sp (gens s' c) = STop /\ In m (got (gens s' c)) /\
+       ((exists r, failQ s = m :: r /\ failQ s' = r /\ sendQ s' = sendQ s) \/
+        (failQ s = [] /\ failQ s' = [] /\ exists r, sendQ s = m :: r /\ sendQ s' = r))).
+  { clear - FB. intros s H P [(r & Q)|(Q0 & r & Q)].
+    - destruct (live_write (w_sp (w_failQ s r) c (SCheck m)) c m) as (s' & R & F & Q1 & Q2 & Q3 & Q4).
+      { eapply frame_healthy; [apply frame_w_sp|]. exact H. } { rewrite sp_w_sp. auto. }
+      exists s'. split; [|split; [|split; [|split]]]; auto.
+      + eapply reach_trans; [|exact R]. eapply (reach_step _ (LSPoll c)); [reflexivity|]. unfold step. rewrite P, Q. reflexivity.
+      + eapply frame_trans; [|exact F]. apply (frame_w_sp c (w_failQ s r)).
+      + left. exists r. auto.
+    - destruct (FB (w_sp s c SBlock)) as (s' & R & F & Q1 & Q2 & Q3).
+      { eapply frame_healthy; [apply frame_w_sp|]. exact H. } { apply sp_w_sp. } { right. split; auto. exists r. auto. }
+      exists s'. split; [|split; [|split; [|split]]]; auto.
+      + eapply reach_trans; [|exact R]. eapply (reach_step _ (LSPoll c)); [reflexivity|]. unfold step. rewrite P, Q0. reflexivity.
+      + eapply frame_trans; [|exact F]. apply frame_w_sp. }
+  destruct RD as [P|[P|P]]; [|eauto|eauto].
+  destruct (FP (w_sp s c SPollFail)) as (s' & R & F & Q1 & Q2 & Q3).
+  { eapply frame_healthy; [apply frame_w_sp|]. exact H. } { apply sp_w_sp. } { exact Q. }
+  exists s'. split; [|split; [|split; [|split]]]; auto.
+  - eapply reach_trans; [|exact R]. eapply (reach_step _ (LSTop c)); [reflexivity|]. unfold step. rewrite L, P, D. reflexivity.
+  - eapply frame_trans; [|exact F]. apply frame_w_sp.
+Qed.
+
+Lemma drain_fail s c : InvX s -> healthy s c ->
+  exists s', reach_int s s' /\ frame c s s' /\ failQ s' = [] /\ sendQ s' = sendQ s /\ ready (sp (gens s' c)) /\
+             (forall m, In m (failQ s) -> In m (got (gens s' c))) /\
+             (forall m, holds (sp (gens s c)) = Some m -> In m (got (gens s' c))).
+Proof.
+  intros I H. destruct (live_ready s c I H) as (s1 & R1 & F1 & RD1 & Q1 & Q2 & Q3).
+  pose proof (reach_InvX _ _ I R1) as I1. pose proof (frame_healthy _ _ _ F1 H) as H1.
+  destruct (failQ s) as [|m r] eqn:EF.
+  - exists s1. split; [auto|]. split; [auto|]. split; [congruence|]. split; [auto|]. split; [auto|]. split; [intros m []|auto].
+  - assert (r = []). { destruct I as (_ & (_ & _ & _ & HQ)). rewrite EF in HQ. cbn in HQ. destruct r; auto. cbn in HQ. lia. } subst r.
+    destruct (live_take s1 c m I1 H1 RD1) as (s2 & R2 & F2 & P2 & G2 & [(r & E1 & E2 & E3)|(E1 & _)]).
+    { left. exists []. congruence. }
+    2: { congruence. }
+    exists s2. split; [eapply reach_trans; eauto|]. split; [eapply frame_trans; eauto|].
+    assert (r = []) by congruence. subst r.
+    split; [auto|]. split; [congruence|]. split; [rewrite P2; unfold ready; auto|]. split.
+    + intros x [<-|[]]. exact G2.
+    + intros x Hx. destruct F2 as (_ & _ & _ & _ & _ & G). apply G. auto.
+Qed.
+
+Lemma deliver_sendQ c m q2 : forall q1 s, InvX s -> healthy s c -> sendQ s = q1 ++ m :: q2 ->
+  exists s', reach_int s s' /\ frame c s s' /\ In m (got (gens s' c)).
+Proof.
+  induction q1 as [|y q1 IH]; intros s I H Q.
+  - destruct (drain_fail s c I H) as (s1 & R1 & F1 & E1 & E2 & RD1 & _).
+    pose proof (reach_InvX _ _ I R1) as I1. pose proof (frame_healthy _ _ _ F1 H) as H1.
+    destruct (live_take s1 c m I1 H1 RD1) as (s2 & R2 & F2 & P2 & G2 & _).
+    { right. split; auto. exists q2. rewrite E2, Q. reflexivity. }
+    exists s2. split; [eapply reach_trans; eauto|]. split; [eapply frame_trans; eauto|auto].
+  - destruct (drain_fail s c I H) as (s1 & R1 & F1 & E1 & E2 & RD1 & _).
+    pose proof (reach_InvX _ _ I R1) as I1. pose proof (frame_healthy _ _ _ F1 H) as H1.
+    destruct (live_take s1 c y I1 H1 RD1) as (s2 & R2 & F2 & P2 & G2 & [(r & X & _)|(_ & _ & r & X1 & X2)]).
+    { right. split; auto. exists (q1 ++ m :: q2). rewrite E2, Q. reflexivity. }
+    { congruence. }
+    pose proof (reach_InvX _ _ I1 R2) as I2. pose proof (frame_healthy _ _ _ F2 H1) as H2.
+    destruct (IH s2 I2 H2) as (s3 & R3 & F3 & G3).
+    { rewrite X2. rewrite E2, Q in X1. cbn in X1. congruence. }
+    exists s3. split; [eapply reach_trans; [eauto|eapply reach_trans; eauto]|]. split; [|auto].
+    eapply frame_trans; [eauto|eapply frame_trans; eauto].
+Qed.
+
+Lemma healthy_w_sp s c g p : g <> c -> healthy s c -> healthy (w_sp s g p) c.
+Proof. intros N (H1 & H2 & H3 & H4). apply Nat.eqb_neq in N. unfold healthy. simpw. rewrite Nat.eqb_sym, N. auto. Qed.
+
+Lemma healthy_ext s s' c : cur s' = cur s -> closedF s' = closedF s -> gens s' c = gens s c -> healthy s c -> healthy s' c.
+Proof. intros A B C (H1 & H2 & H3 & H4). unfold healthy. rewrite A, B, C. auto. Qed.
+
+Lemma upd_neq f g v c : g <> c -> upd f g v c = f c.
+Proof. intros N. unfold upd. apply Nat.eqb_neq in N. now rewrite Nat.eqb_sym, N. Qed.
+
+(* a send goroutine of another generation hands the request it holds over to the failure queue *)
+Lemma stale_push s c g m : healthy s c -> g <> c -> failQ s = [] -> dead (gens s g) = true -> holds (sp (gens s g)) = Some m ->
+  exists s', reach_int s s' /\ healthy s' c /\ In m (failQ s').
+Proof.
+  intros H N. 
+  assert (NC : forall s, healthy s c -> isCurrent s g = false).
+  { intros s0 (H1 & _). unfold isCurrent, is_cur. rewrite H1. apply Nat.eqb_neq in N. rewrite Nat.eqb_sym, N. apply andb_false_r. }
+  assert (A1 : forall s, healthy s c -> failQ s = [] -> sp (gens s g) = SRequeue m -> exists s', reach_int s s' /\ healthy s' c /\ In m (failQ s')).
+  { intros s0 H0 Q P. exists (w_sp (w_failQ s0 [m]) g SExit). split; [|split].
+    - eapply (reach_step _ (LSRequeue g)); [reflexivity|]. unfold step. rewrite P, Q. reflexivity.
+    - eapply healthy_ext; [| | |exact H0]; try reflexivity. cbn. apply upd_neq; auto.
+    - cbn. auto. }
+  assert (A2 : forall s, healthy s c -> failQ s = [] -> sp (gens s g) = SFailPush m -> exists s', reach_int s s' /\ healthy s' c /\ In m (failQ s')).
+  { intros s0 H0 Q P. exists (w_sp (w_failQ s0 [m]) g SFailClose). split; [|split].
+    - eapply (reach_step _ (LSFailPush g)); [reflexivity|]. unfold step. rewrite P, Q. reflexivity.
+    - eapply healthy_ext; [| | |exact H0]; try reflexivity. cbn. apply upd_neq; auto.
+    - cbn. auto. }
+  assert (A3 : forall s, healthy s c -> failQ s = [] -> dead (gens s g) = true -> sp (gens s g) = SWrite m -> exists s', reach_int s s' /\ healthy s' c /\ In m (failQ s')).
+  { intros s0 H0 Q D P.
+    destruct (A2 (w_sp (w_atts s0 (atts s0 ++ [(g, m, dead (gens s0 g))])) g (SFailPush m))) as (s' & R & X).
+    - eapply healthy_ext; [| | |exact H0]; try reflexivity. cbn. apply upd_neq; auto.
+    - exact Q.
+    - apply sp_w_sp.
+    - exists s'. split; [|exact X]. eapply reach_trans; [|exact R].
+      eapply (reach_step _ (LSWriteErr g)); [reflexivity|]. unfold step. rewrite P, D. reflexivity. }
+  intros Q D HO. destruct (sp (gens s g)) eqn:P; cbn in HO; try discriminate; injection HO as ->.
+  - (* SCheck *)
+    destruct (A1 (w_sp s g (SRequeue m))) as (s' & R & X).
+    + eapply healthy_ext; [| | |exact H]; try reflexivity. cbn. apply upd_neq; auto.
+    + exact Q.
+    + apply sp_w_sp.
+    + exists s'. split; [|exact X]. eapply reach_trans; [|exact R].
+      eapply (reach_step _ (LSCheck g)); [reflexivity|]. unfold step. rewrite P, (NC s H). reflexivity.
+  - (* SHook *)
+    destruct (A3 (w_log (w_sp s g (SWrite m)) (EWrite g m (dead (gens s g) || negb (is_cur s g))))) as (s' & R & X).
+    + eapply healthy_ext; [| | |exact H]; try reflexivity. cbn. apply upd_neq; auto.
+    + exact Q.
+    + simpw. exact D.
+    + now simpw.
+    + exists s'. split; [|exact X]. eapply reach_trans; [|exact R].
+      eapply (reach_step _ (LSHook g)); [reflexivity|]. unfold step. rewrite P. reflexivity.
+  - eauto.
+  - eauto.
+  - eauto.
+Qed.
+
+Lemma stale_handover s c g m : InvX s -> healthy s c -> g <> c -> holds (sp (gens s g)) = Some m ->
+  exists s', reach_int s s' /\ healthy s' c /\ In m (failQ s').
+Proof.
+  intros I H N HO.
+  destruct (drain_fail s c I H) as (s1 & R1 & F1 & E1 & _ & _).
+  pose proof (reach_InvX _ _ I R1) as I1. pose proof (frame_healthy _ _ _ F1 H) as H1.
+  assert (G1 : gens s1 g = gens s g). { destruct F1 as (_ & _ & _ & _ & G & _). auto. }
+  rewrite <- G1 in HO.
+  assert (D : dead (gens s1 g) = true).
+  { destruct I1 as (((_ & HC) & _ & HN) & _). apply HC.
+    - apply lt_ngen_of_sp; auto. intros E. rewrite E in HO. discriminate.
+    - destruct H1 as (H1 & _). congruence. }
+  destruct (stale_push s1 c g m H1 N E1 D HO) as (s2 & R2 & X).
+  exists s2. split; [eapply reach_trans; eauto|exact X].
+Qed.
+
+Definition pending (s : st) (m : nat) : Prop :=
+  In m (sendQ s) \/ In m (failQ s) \/ exists g, holds (sp (gens s g)) = Some m.
+
+(* DELIVERY: whenever the current connection is healthy (not known dead, not closed by the peer) and a request is
+   pending anywhere in the client (send queue, failure queue, hands of any send goroutine, current or stale),
+   the client's goroutines alone (no further call, no timer) can bring it to the peer over the current connection *)
+Theorem delivery_possible ls s c m : run true init ls = Some s ->
+  cur s = Some c -> dead (gens s c) = false -> peerc (gens s c) = false -> pending s m ->
+  exists s', reach_int s s' /\ cur s' = Some c /\ dead (gens s' c) = false /\ peerc (gens s' c) = false /\ In m (got (gens s' c)).
+Proof.
+  intros R C D P PE.
+  assert (I : InvX s). { eapply InvX_run; [apply InvX_init|exact R]. }
+  assert (H : healthy s c).
+  { unfold healthy. repeat split; auto. destruct I as (((HA & _) & _) & _). rewrite C in HA. destruct HA. congruence. }
+  assert (FQ : forall s, InvX s -> healthy s c -> In m (failQ s) ->
+     exists s', reach_int s s' /\ cur s' = Some c /\ dead (gens s' c) = false /\ peerc (gens s' c) = false /\ In m (got (gens s' c))).
+  { clear. intros s I H X. destruct (drain_fail s c I H) as (s1 & R1 & F1 & _ & _ & _ & G & _).
+    destruct (frame_healthy _ _ _ F1 H) as (A & _ & B & B'). exists s1. repeat split; auto. }
+  destruct PE as [X|[X|(g & X)]].
+  - apply in_split in X. destruct X as (q1 & q2 & X).
+    destruct (deliver_sendQ c m q2 q1 s I H X) as (s1 & R1 & F1 & G).
+    destruct (frame_healthy _ _ _ F1 H) as (A & _ & B & B'). exists s1. repeat split; auto.
+  - eauto.
+  - destruct (Nat.eq_dec g c) as [->|N].
+    + destruct (drain_fail s c I H) as (s1 & R1 & F1 & _ & _ & _ & _ & G).
+      destruct (frame_healthy _ _ _ F1 H) as (A & _ & B & B'). exists s1. repeat split; auto.
+    + destruct (stale_handover s c g m I H N X) as (s1 & R1 & H1 & X1).
+      destruct (FQ s1 (reach_InvX _ _ I R1) H1 X1) as (s2 & R2 & Y). exists s2. split; [eapply reach_trans; eauto|exact Y].
+Qed.
+
+(* a call issued when the loss is known (closed flag set): ReConnect dials a fresh connection, the request is
+   enqueued, and the client's goroutines alone can bring it to the peer over that connection *)
+Theorem call_after_known_close ls s m s1 : run true init ls = Some s -> closedF s = true ->
+  run true s [LReconnect; LEnq m] = Some s1 ->
+  cur s1 = Some (ngen s) /\ closedF s1 = false /\
+  exists s', reach_int s1 s' /\ cur s' = Some (ngen s) /\ dead (gens s' (ngen s)) = false /\ In m (got (gens s' (ngen s))).
+Proof.
+  intros R C R1.
+  assert (RR : run true init (ls ++ [LReconnect; LEnq m]) = Some s1). { rewrite run_app, R. exact R1. }
+  cbn [run step] in R1. rewrite C in R1.
+  match type of R1 with context [if ?b then _ else _] => destruct b eqn:E end; [|discriminate]. injection R1 as <-.
+  split; [reflexivity|]. split; [reflexivity|].
+  destruct (delivery_possible _ _ (ngen s) m RR) as (s' & R' & A & B & _ & G).
+  - reflexivity.
+  - cbn. unfold upd. rewrite Nat.eqb_refl. reflexivity.
+  - cbn. unfold upd. rewrite Nat.eqb_refl. reflexivity.
+  - left. cbn. rewrite in_app_iff. right. now left.
+  - exists s'. auto.
+Qed.
+
+(* non-vacuity of the hypotheses of [delivery_possible]: the request of the second call is in the hands of the
+   stale send goroutine of generation 0 while generation 1 is healthy *)
+Lemma delivery_example : exists s, run true init
+    [LLogEnq 0; LReconnect; LEnq 0; LSTop 0; LSPoll 0; LSBlkQueue 0; LSCheck 0; LSHook 0; LSWriteOk 0; LSTop 0; LSPoll 0;
+     LLogPClose 0; LPeerClose 0; LRClose 0; LLogEnq 1; LReconnect; LEnq 1; LSBlkQueue 0] = Some s /\
+  cur s = Some 1 /\ dead (gens s 1) = false /\ peerc (gens s 1) = false /\ pending s 1 /\ sp (gens s 0) = SCheck 1.
+Proof. eexists. split; [vm_compute; reflexivity|]. cbn. repeat split; auto. right. right. exists 0. reflexivity. Qed.
